@@ -12,7 +12,7 @@ def specs(ck, n, prop, configs):
     styles = [s["name"] for s in gs.IMPORT_STYLES]
     for i in range(n):
         out.append({"name": f"vfsrc_{prop.lower()}_{ck.seed}_{i}", "seed": f"{prop}:{ck.seed}:{i}", "style": styles[i % len(styles)], "configs": configs,
-                    "cli": i % 5 == 0, "cli_confine": prop == "C16"})
+                    "cli": i % 3 == 0, "cli_confine": prop == "C16"})
     # pinned witnesses of the listed findings (forced features), first in both tiers
     pins = [
         {"name": f"vfsrc_{prop.lower()}_pin_local_{ck.seed}", "seed": f"{prop}:pin:1", "style": "function-local-import", "configs": configs, "cli": False},
@@ -35,7 +35,7 @@ def run(ck):
     ck.need("second_applications", 150)
     ck.need("results_executed", 150)
     ck.need("cli_applies", 5)
-    for f in ("partial-annotations", "decorated", "nested-def", "docstring", "future-import", "typing-import", "module-code", "nested-class"):
+    for f in ("alias-annotations", "partial-annotations", "decorated", "nested-def", "docstring", "future-import", "typing-import", "module-code", "nested-class"):
         ck.counters["feature:" + f] = 1 if f in ck.sets.get("source_features", ()) else 0
         ck.need("feature:" + f, 1, "source feature never generated")
     return ck.finish(
